@@ -72,6 +72,10 @@ package nsx
 // text handed to the device, a file or a log is never interpreted as a printf format
 //vc:constformat[C04]
 
+// The rule comparison reads every content field of a rule (not content: the id,
+// which is generated, and the revision, which the manager assigns).
+//vc:fieldscompared[C04] (*rulesPair).Equal nsxRule except Id,Revision
+
 // ---- C04: a Netspoc group never keeps the id of a device group ----
 // A group that is transferred is written with PUT under its own id, which
 // would overwrite a device group of that id - also one that was just changed
